@@ -6,7 +6,7 @@ from common import sh2
 LEVEL = "proof"
 MANIFEST = {
     "technique": "Coq proof over a hand-written Gallina model of the bits package + differential correspondence (extracted OCaml vs Go)",
-    "level_text": "Theorems (coq/c13/C13Theorems.v, 47 - the C13b and round-4 ones group related statements -, no length bound on byte strings or op sequences): the EBSP writer state machine "
+    "level_text": "Theorems (coq/c13/C13Theorems.v, 48 - the C13b and round-4 ones group related statements -, no length bound on byte strings or op sequences): the EBSP writer state machine "
                   "equals the one-shot escape spec, escape output has no forbidden triple, every 00 00 03 is an inserted escape and every "
                   "inserted byte is required, unescape inverts escape. Exact domain of the 64-bit accumulators: Write(v, n) appends exactly "
                   "the n low bits whenever pending + n <= 64 (every n <= 57 at any alignment, n = 0 appends nothing, up to 64 at a byte "
@@ -39,8 +39,11 @@ MANIFEST = {
                   "are read back and the call returns exactly those bytes iff the values fill whole bytes. "
                   "FixedSliceWriter.WriteString (C13_fsw_write_string) is WriteBytes of the string's bytes plus the terminator under ONE "
                   "capacity check - all or nothing, pending bits untouched, never beyond the capacity -, so every FixedSliceWriter "
-                  "theorem holds for op sequences containing it. Only explored (correspondence + search on the real code, not "
-                  "proved): reads of Exp-Golomb prefixes longer than 57 bits (malformed streams). The model "
+                  "theorem holds for op sequences containing it. ReadExpGolomb / ReadSignedGolomb on a code with ANY number q of leading zero bits whose q suffix bits are "
+                  "present (C13_read_golomb_any, malformed streams included, q unbounded): the value is ((2^q - 1) mod 2^64 + suffix mod "
+                  "2^(64 - k)) mod 2^64 with k = bits left pending, no error, exactly 2q + 1 bits consumed. Only explored (correspondence "
+                  "+ search on the real code, not proved): codes of more than 56 leading zeros whose suffix is cut short by the end of "
+                  "the stream. The model "
                   "is tied to /repo on every run by running it (extracted) against the real bits package on exhaustive small byte "
                   "strings, every width 0..70 after every number of pending bits, and random op sequences.",
     "level_note": "Trusted: Coq kernel, extraction (ExtrOcamlBasic), the OCaml/Go glue, and the correspondence being only as good as "
@@ -53,6 +56,10 @@ MANIFEST = {
                   "exhausted underlying reader is modelled by cutting the input at the read position (C13ModelTail.read_remaining). "
                   "The slice readers (bits/fixedslicereader.go, not an anchored file) are not modelled.",
 }
+
+
+import re
+_LONG = re.compile(r"^R\t\d+\tE\t[0-9a-f]*\t(b:\d;)?([uS];)+b:8;b:1\t")
 
 
 def build(ctx):
@@ -103,6 +110,10 @@ def run(ctx):
                                     any(o == "r" for o in l.split("\t")[4].split(";"))),
         "read_remaining_returned_bytes": sum(1 for l in lines if l.startswith("R\t") and
                                              any(o.startswith("h") for o in l.split("\t")[5].split(","))),
+        # R lines of harness/c13/tail.go genLongCodes (mode E, ops [b:p;] u|S ... ;b:8;b:1): the hypotheses of
+        # C13_read_golomb_any hold by construction; counted: those where the real reader then read the marker byte a5 back
+        "golomb_any_cases": sum(1 for l in lines if _LONG.match(l)),
+        "golomb_any_marker_read_back": sum(1 for l in lines if _LONG.match(l) and l.split("\t")[5].split(",")[-2].startswith("a5/0/")),
         "write_string_cases": sum(1 for l in lines if l.startswith("F\t") and
                                   any(o.startswith("s:") for o in l.split("\t")[3].split(";"))),
     }
@@ -172,7 +183,9 @@ def run(ctx):
                        "without terminator) is one of the FixedSliceWriter ops of every F case and FixedSliceWriter oracle; search: values + "
                        "Flush + arbitrary tail -> values back and ReadRemainingBytes = the tail iff byte aligned, nil + sticky error "
                        "otherwise, nil after a failed read, nothing left afterwards; WriteString = bytes (+00) at exact / roomy capacity, "
-                       "error and nothing beyond the capacity when too small"
+                       "error and nothing beyond the capacity when too small; Exp-Golomb codes with 0..80 leading zeros (boundaries 56..65 "
+                       "preferred) after 0..7 bits, escaped, marker byte behind them: corr on every case, search = no error, marker read "
+                       "back (position), codeNum for q <= 57"
                        % (exh, n, n, n, n))
 
 
